@@ -575,6 +575,7 @@ impl Property for C20 {
             ],
             components_stub: vec!["none inside the child; its world (argv, env, cwd, files, fds) is constructed by the simulator".into()],
             step_unit: "process spawns",
+            history_measure: "distinct (subcommand, usage fault, file fault, exit status, stdout empty?, stderr empty?) classes",
         }
     }
 
